@@ -80,6 +80,83 @@ Theorem C02_model_meets_oracle : forall ts outs ps0,
 Proof. exact model_meets_oracle. Qed.
 Print Assumptions C02_model_meets_oracle.
 
+(* distinct placeholders have distinct destination keys and no key has a brace, for every
+   configuration whose path segments are non-empty lists of strings without '.', '{', '}'
+   (all that the grammar [a-zA-Z0-9_-] of the configuration can express): the two global
+   hypotheses of C02_propagation are discharged syntactically *)
+Theorem C02_dests_distinct_simple : forall ts,
+  holes_simple ts = true -> dests_distinct ts /\ dests_clean_b ts = true.
+Proof. intros ts H. split; [apply holes_simple_distinct|apply holes_simple_clean]; exact H. Qed.
+Print Assumptions C02_dests_distinct_simple.
+
+Theorem C02_dest_key_injective : forall j p j' p',
+  path_simple p = true -> path_simple p' = true -> dest_key j p = dest_key j' p' -> j = j' /\ p = p'.
+Proof. exact dest_key_inj. Qed.
+Print Assumptions C02_dest_key_injective.
+
+(* C02_propagation with the syntactic hypothesis only *)
+Theorem C02_propagation_syntactic : forall ts outs ps0,
+  holes_simple ts = true ->
+  forall i path t s,
+    In (i, path) (call_paths (fst (seq_run ts outs ps0))) -> nth_error ts i = Some t ->
+    tmpl_clean outs ps0 i t = true ->
+    fill outs ps0 i t = Some s -> path = s.
+Proof. exact model_propagation_syntactic. Qed.
+Print Assumptions C02_propagation_syntactic.
+
+(* the exact path of EVERY call, whatever the placeholders refer to: each placeholder is
+   replaced by param_of (lookup_src ...) of the referenced response when the index is
+   earlier and the (quirky) lookup finds something - scalars as their text, arrays joined by
+   commas, anything else with %v - and is otherwise left as it is (or takes the value of an
+   endpoint parameter that happens to be named like its key) *)
+Theorem C02_path_exact : forall ts outs ps0,
+  dests_distinct ts -> dests_clean_b ts = true ->
+  forall i path t,
+    In (i, path) (call_paths (fst (seq_run ts outs ps0))) -> nth_error ts i = Some t ->
+    tmpl_clean_q outs ps0 i t = true ->
+    path = cat (map (seg_text_q outs ps0 i) t).
+Proof. exact model_path_exact. Qed.
+Print Assumptions C02_path_exact.
+
+(* the quirk outside the property's hypothesis: the path is pre ++ k :: rest, the segments
+   pre lead through objects to the object m, and k is missing in m (or is not an object)
+   although it is not the last segment.  Then what is substituted is the value of the LAST
+   segment looked up in m (the object reached so far), formatted by param_of (a scalar as its
+   text); when m has no such key the placeholder is left (up to a same-named endpoint
+   parameter) *)
+Theorem C02_missing_intermediate_quirk : forall ts outs ps0,
+  dests_distinct ts -> dests_clean_b ts = true ->
+  forall i path t j r pre k rest m,
+    In (i, path) (call_paths (fst (seq_run ts outs ps0))) -> nth_error ts i = Some t ->
+    tmpl_clean_q outs ps0 i t = true ->
+    In (Hole j (pre ++ k :: rest)) t -> (j < i)%nat -> nth_error outs j = Some (OResp r) ->
+    get_path (JObj (data_or_empty r)) pre = Some (JObj m) ->
+    rest <> [] -> (forall m', lookup k m <> Some (JObj m')) ->
+    path = cat (map (seg_text_q outs ps0 i) t) /\
+    seg_text_q outs ps0 i (Hole j (pre ++ k :: rest)) =
+      match lookup (last rest k) m with
+      | Some v => param_of v
+      | None => match lookup (dest_key j (pre ++ k :: rest)) ps0 with
+                | Some v => v
+                | None => ph (dest_key j (pre ++ k :: rest))
+                end
+      end.
+Proof. exact model_missing_intermediate_quirk. Qed.
+Print Assumptions C02_missing_intermediate_quirk.
+
+(* the lookup itself: quirk and plain case *)
+Theorem C02_lookup_src_quirk : forall pre d m k rest,
+  get_path (JObj d) pre = Some (JObj m) -> rest <> [] ->
+  (forall m', lookup k m <> Some (JObj m')) ->
+  lookup_src d (pre ++ k :: rest) = lookup (last rest k) m.
+Proof. exact lookup_src_quirk. Qed.
+Print Assumptions C02_lookup_src_quirk.
+
+Theorem C02_lookup_src_plain : forall pre d m k,
+  get_path (JObj d) pre = Some (JObj m) -> lookup_src d (pre ++ [k]) = lookup k m.
+Proof. exact lookup_src_plain. Qed.
+Print Assumptions C02_lookup_src_plain.
+
 (* ---- non-vacuity ---- *)
 Definition ex_ts : list tmpl :=
   [[Lit "/b0"]; [Lit "/b1"]; [Lit "/b2/"; Hole 0 ["id"]; Lit "/"; Hole 1 ["o"; "k"]]].
@@ -137,3 +214,19 @@ Proof. vm_compute. repeat split; auto. Qed.
 
 Example C02_ex_wf_inputs : Forall wf_out ex_outs /\ List.length ex_ts = List.length ex_outs.
 Proof. split; [repeat constructor|reflexivity]. Qed.
+
+(* the syntactic hypothesis holds of the example, and the quirk theorem is not vacuous *)
+Example C02_ex_holes_simple : holes_simple ex_ts = true.
+Proof. vm_compute. reflexivity. Qed.
+
+Definition exq_ts : list tmpl := [[Lit "/b0"]; [Lit "/b1/"; Hole 0 ["a"; "b"; "c"]; Lit "/"; Hole 0 ["a"; "x"; "nope"]]].
+Definition exq_outs : list outcome :=
+  [OResp {| data := Some [("a", JObj [("c", JStr "shallow")])]; complete := true |};
+   OResp {| data := Some []; complete := true |}].
+Example C02_ex_quirk :
+  holes_simple exq_ts = true /\ tmpl_clean_q exq_outs [] 1 (nth 1 exq_ts []) = true /\
+  get_path (JObj [("a", JObj [("c", JStr "shallow")])]) ["a"] = Some (JObj [("c", JStr "shallow")]) /\
+  lookup "b" [("c", JStr "shallow")] = None /\
+  fst (seq_run exq_ts exq_outs []) =
+    [ECall 0 "/b0"; ERet 0; ECall 1 "/b1/shallow/{{.Resp0_a.x.nope}}"; ERet 1].
+Proof. vm_compute. repeat split; reflexivity. Qed.
